@@ -29,17 +29,18 @@ ASSUME {1, 2} \subseteq Obs
 InitMembers == {<<>>, <<1, 2>>}
 
 Attrs == {"a", "b"}
+RealNames == Names \ {"none"}
 Rng(s) == {s[i] : i \in 1..Len(s)}
 NoRep(s) == \A i, j \in 1..Len(s) : i # j => s[i] # s[j]
 Perms(S) == {s \in UNION {[1..n -> S] : n \in 0..Cardinality(S)} : NoRep(s)}
 
 Init == /\ members \in InitMembers
         /\ val = [a \in Attrs |-> [o \in Obs |-> 0]]
-        /\ name \in {[o \in Obs |-> CHOOSE n \in Names : TRUE]}
+        /\ name \in {[o \in Obs |-> "n1"], [o \in Obs |-> IF o = 1 THEN "none" ELSE "n1"], [o \in Obs |-> "none"]}   \* "none": never named
         /\ parent = [o \in Obs |-> IF o \in Rng(members) THEN "group" ELSE "none"]
         /\ nobs = [o \in Obs |-> 0]
         /\ outcome = "ok"
-        /\ hist = <<[op |-> "init", s |-> members]>>
+        /\ hist = <<[op |-> "init", s |-> members, name0 |-> name]>>
 
 Log(e) == hist' = Append(hist, e)
 
@@ -103,6 +104,11 @@ SetMember(o, a, v) == /\ val' = [val EXCEPT ![a][o] = v]
                       /\ outcome' = "ok"
                       /\ UNCHANGED <<members, name, parent, nobs>> /\ Log([op |-> "set_member", o |-> o, a |-> a, v |-> v])
 
+\* observer.name = n on an observer (member or not) directly
+Rename(o, n) == /\ name[o] # n
+                /\ name' = [name EXCEPT ![o] = n] /\ outcome' = "ok"
+                /\ UNCHANGED <<members, val, parent, nobs>> /\ Log([op |-> "rename", o |-> o, n |-> n])
+
 \* group.observe(): every member observed exactly once
 Observe == /\ nobs' = [o \in Obs |-> IF o \in Rng(members) THEN nobs[o] + 1 ELSE nobs[o]]
            /\ outcome' = "ok"
@@ -119,7 +125,8 @@ NextStep ==
   \/ \E a \in Attrs, k \in Kinds :
         \/ \E vs \in [1..Len(members) -> Vals] : AssignSeq(a, vs, k)
         \/ \E n \in 0..(Cardinality(Obs) + 1) : AssignSeqWrongLen(a, [i \in 1..n |-> 1], k)
-  \/ \E ns \in [1..Len(members) -> Names] : AssignNames(ns)
+  \/ \E ns \in [1..Len(members) -> RealNames] : AssignNames(ns)         \* (raysect refuses None as a name)
+  \/ \E o \in Obs, n \in RealNames : Rename(o, n)
   \/ \E n \in 0..(Cardinality(Obs) + 1) : AssignNamesWrongLen([i \in 1..n |-> "n1"])
   \/ \E o \in Obs, a \in Attrs, v \in Vals : SetMember(o, a, v)
   \/ Observe
@@ -132,10 +139,13 @@ Spec == Init /\ [][Next]_vars
 ReadAttrS(m, vl, a) == [i \in 1..Len(m) |-> vl[a][m[i]]]
 ReadAttr(a) == ReadAttrS(members, val, a)
 ReadNames   == [i \in 1..Len(members) |-> name[members[i]]]
-\* lookup by unique name
-Unique(n)   == Cardinality({i \in 1..Len(members) : name[members[i]] = n}) = 1
-ByName      == {<<n, CHOOSE o \in Rng(members) : name[o] = n>> : n \in {m \in Names : Unique(m)}}
-DupNames    == {n \in Names : Cardinality({i \in 1..Len(members) : name[members[i]] = n}) > 1}
+\* lookup by unique name; "none" stands for an observer without a name (raysect's default, name = None): it cannot be
+\* looked up and does not stand in the way of the named members
+Count(n)    == Cardinality({i \in 1..Len(members) : name[members[i]] = n})
+Unique(n)   == Count(n) = 1
+ByName      == {<<n, CHOOSE o \in Rng(members) : name[o] = n>> : n \in {m \in RealNames : Unique(m)}}
+DupNames    == {n \in RealNames : Count(n) > 1}
+Absent      == {n \in RealNames \cup {"n9"} : Count(n) = 0}         \* looking these up raises ValueError
 
 TypeOK == /\ NoRep(members) /\ Rng(members) \subseteq Obs
           /\ val \in [Attrs -> [Obs -> {0} \cup Vals]]
@@ -155,7 +165,7 @@ ObserveOnce == [][(hist'[Len(hist')].op = "observe" =>
 
 View == <<members, val, name, parent, nobs, outcome>>
 Emit == PrintT(ToJson([h |-> hist', members |-> members', a |-> ReadAttr("a")', b |-> ReadAttr("b")',
-                       names |-> ReadNames', byname |-> ByName', dup |-> DupNames',
+                       names |-> ReadNames', byname |-> ByName', dup |-> DupNames', absent |-> Absent',
                        nobs |-> [i \in 1..Len(members') |-> nobs'[members'[i]]],
                        outsiders |-> {<<o, nobs'[o]>> : o \in Obs \ Rng(members')},
                        outvals |-> {<<o, val'["a"][o], val'["b"][o]>> : o \in Obs \ Rng(members')}, outcome |-> outcome']))
